@@ -136,10 +136,17 @@ def run_case(case):
     mask = (1 << n) - 1
     burst = {"i": 0}
 
+    from vmon.simkit import reset_plan, drive_reset
+    resets = reset_plan(case["cycles"])
+
     async def bench(ctx):
         for c in range(case["cycles"]):
             mon.cycle = c
             inp = drv.next()
+            drive_reset(ctx, c in resets)
+            if c in resets:
+                inp = drv.idle()          # warm reset: idle bus cycle, the transaction in progress is abandoned
+                drv.restart()
             ctx.set(bus.addr, inp["addr"])
             ctx.set(bus.r_stb, inp["r_stb"])
             ctx.set(bus.w_stb, inp["w_stb"])
@@ -186,6 +193,10 @@ def run_case(case):
             st["E"], st["P"] = E, ((P & ~clear) | trg) & mask
             st["prev_i"] = [(i_vec >> k) & 1 for k in range(n)]
             model.advance(inp, vals)
+            if c in resets:
+                st["E"], st["P"], st["prev_i"] = 0, 0, [0] * n
+                model.reset()
+                mon.count("warm_resets")
             await ctx.tick()
 
     try:
